@@ -244,6 +244,60 @@ def handleHistory (req : SExp) : Option SExp := do
                          list [atom "grads", heapS H report]]]
   pure (list out)
 
+/-! ### C15: individual transforms driven directly -/
+def parseGDict (es : List SExp) : Option (GDict Rat) :=
+  es.mapM fun e => match e with
+    | list [k, v] => do pure ((← k.nat?), (← ratList? v))
+    | _ => none
+
+def parseJDict (es : List SExp) : Option (JDict Rat) :=
+  es.mapM fun e => match e with
+    | list [k, m] => do pure ((← k.nat?), (← ratMat? m))
+    | _ => none
+
+def gdictS (d : GDict Rat) : SExp :=
+  list ((d.toArray.qsort (fun a b => a.1 < b.1)).toList.map fun (k, v) => list [ofNat k, ofRats v])
+
+def jdictS (d : JDict Rat) : SExp :=
+  list ((d.toArray.qsort (fun a b => a.1 < b.1)).toList.map fun (k, m) => list [ofNat k, ofRatMat m])
+
+def handleTransform (req : SExp) : Option SExp := do
+  let p ← parseProg req
+  let (E, _) := p.engine
+  let op ← req.field? "op"
+  let okG (d : GDict Rat) : SExp := list [atom "ok", gdictS d]
+  let okJ (d : JDict Rat) : SExp := list [atom "ok", jdictS d]
+  let err (e : Err) : SExp := list [atom "err", errS e]
+  match op with
+  | [atom "init", ks] => pure (okG (initT E (← natList? ks)))
+  | [atom "diag", ks] =>
+    let g ← parseGDict (← req.field? "input")
+    pure (okJ (diagonalizeT E (← natList? ks) g))
+  | [atom "grad", outs, ins] =>
+    let g ← parseGDict (← req.field? "input")
+    match gradT E (← natList? outs) (← natList? ins) g with
+    | .ok d => pure (okG d)
+    | .error e => pure (err e)
+  | [atom "jac", outs, ins, chunk] =>
+    let j ← parseJDict (← req.field? "input")
+    let c ← parseChunk chunk
+    match jacT E (← natList? outs) (← natList? ins) (c.map Int.toNat) false j with
+    | .ok (d, _) => pure (okJ d)
+    | .error e => pure (err e)
+  | [atom "stack"] =>
+    let ds ← (← req.field? "inputs").mapM fun e => e.list? >>= parseGDict
+    pure (okJ (stackT E ds))
+  | [atom "select", ks] =>
+    let g ← parseGDict (← req.field? "input")
+    pure (okG (selectT (← natList? ks) g))
+  | (atom "aggregate" :: ks :: agg) =>
+    let j ← parseJDict (← req.field? "input")
+    let A ← parseAgg agg
+    match aggregateT E A (← natList? ks) j with
+    | .ok d => pure (okG d)
+    | .error e => pure (err e)
+  | _ => none
+
 end AutojacD
 
 /-! ### C12 default parameter discovery on an extracted autograd graph -/
@@ -278,7 +332,7 @@ end LeavesD
 def handlers : List (String × (SExp → Option SExp)) :=
   [("typing", TypingD.handle), ("backward", AutojacD.handleBackward),
    ("mtl", AutojacD.handleMtl), ("jacobian", AutojacD.handleJacobian),
-   ("history", AutojacD.handleHistory), ("leaves", LeavesD.handle)]
+   ("history", AutojacD.handleHistory), ("transform", AutojacD.handleTransform), ("leaves", LeavesD.handle)]
 
 def handleLine (line : String) : String :=
   match SExp.parse line with
